@@ -36,12 +36,40 @@ pub struct Case {
     pub end: End,
 }
 
+/// filler for very large messages: no `>` at all, so never a delimiter
+pub fn pattern(n: usize) -> Vec<u8> {
+    (0..n).map(|i| if i % 97 == 96 { b']' } else { b'a' + (i % 23) as u8 }).collect()
+}
+
+/// a chunk in a descriptor: hex, or `P<k>.<hex>` = `pattern(k)` followed by the hex bytes
+fn enc_chunk(c: &[u8]) -> String {
+    if c.len() > 100_000 {
+        let p = pattern(c.len());
+        let k = c.iter().zip(p.iter()).take_while(|(a, b)| a == b).count();
+        if k > 100_000 {
+            return format!("P{k}.{}", hex(&c[k..]));
+        }
+    }
+    hex(c)
+}
+fn dec_chunk(s: &str) -> Option<Vec<u8>> {
+    match s.strip_prefix('P') {
+        Some(r) => {
+            let (k, h) = r.split_once('.')?;
+            let mut v = pattern(k.parse().ok()?);
+            v.extend(if h.is_empty() || h == "-" { vec![] } else { unhex(h)? });
+            Some(v)
+        }
+        None => unhex(s),
+    }
+}
+
 impl Case {
     pub fn descr(&self) -> String {
         format!(
             "{};{};{}",
             self.transport,
-            hexlist(&self.chunks),
+            if self.chunks.is_empty() { ".".to_string() } else { self.chunks.iter().map(|c| enc_chunk(c)).collect::<Vec<_>>().join(",") },
             match self.end {
                 End::Quiet => "quiet",
                 End::Eof => "eof",
@@ -58,7 +86,7 @@ impl Case {
         let chunks = if p[1] == "." {
             vec![]
         } else {
-            p[1].split(',').map(unhex).collect::<Option<Vec<_>>>()?
+            p[1].split(',').map(dec_chunk).collect::<Option<Vec<_>>>()?
         };
         let end = match p[2] {
             "quiet" => End::Quiet,
@@ -173,7 +201,16 @@ async fn observe<R: RecvHandle>(rx: &mut R, window: Duration, max_msgs: usize) -
 fn cli_script(case: &Case, gap_ms: u64) -> Vec<String> {
     let mut v = vec!["fakecli".to_string()];
     for c in &case.chunks {
-        v.push(format!("w:{}", hex(c)));
+        // a very large chunk does not fit into one argument: `p:<k>` queues pattern(k), the following
+        // `w:` writes queue + bytes with one write_all
+        let e = enc_chunk(c);
+        match e.strip_prefix('P').and_then(|r| r.split_once('.')) {
+            Some((k, h)) => {
+                v.push(format!("p:{k}"));
+                v.push(format!("w:{}", if h.is_empty() { "-" } else { h }));
+            }
+            None => v.push(format!("w:{}", hex(c))),
+        }
         v.push(format!("s:{gap_ms}"));
     }
     match case.end {
@@ -382,6 +419,17 @@ pub fn gen_cases(transport: &str, opts: &Opts, rng: &mut Rng) -> Vec<Case> {
             }
         }
     }
+    // (g) very large messages (1 MiB + 10 bytes, 2.2 MB) immediately followed by a small one in the
+    //     same write: whatever is done differently above some size must not lose the bytes read past
+    //     the delimiter
+    for n in [1_048_586usize, 2_200_000] {
+        let mut s = pattern(n);
+        s.extend_from_slice(b"z]]>]]><a/>]]>]]>");
+        cases.push(Case { transport: transport.into(), chunks: vec![s.clone()], end: End::Quiet });
+        let mut t = pattern(n);
+        t.extend_from_slice(b"z]]>]]><rpc-reply message-id=\"2\"><ok/></rpc-reply>]]>]]><b/>]]>]]>");
+        cases.push(Case { transport: transport.into(), chunks: vec![t], end: End::Quiet });
+    }
     // (f) large messages: the delimiter straddles the sizes at which buffers / records / packets end
     //     (BufReader 8 KiB, TLS record 16 KiB, SSH packet 32 KiB, pipe 64 KiB)
     let sizes: Vec<usize> = if transport == "cli" {
@@ -468,6 +516,10 @@ pub fn main(opts: &Opts) {
         if opts.extra.iter().any(|e| e == "only-close") {
             cases.retain(|c| c.end != End::Quiet);
         }
+        if opts.extra.iter().any(|e| e == "only-huge") {
+            // C14: a reply larger than any plausible limit, directly followed by the next reply
+            cases.retain(|c| c.stream().len() > 500_000);
+        }
         if opts.extra.iter().any(|e| e == "only-cancel") {
             // C18 at the transport: reply futures are abandoned while suspended in the middle of a message
             cases.retain(|c| c.end == End::Quiet && c.chunks.len() >= 2 && c.stream().len() < 4096);
@@ -512,6 +564,28 @@ pub fn main(opts: &Opts) {
     for (c, o) in cases.iter().zip(obs) {
         let Some(o) = o else { continue };
         let d = c.descr();
+        if c.stream().len() > 500_000 {
+            // very large messages: the verdict is computed here (greedy split of the stream), the rows
+            // would otherwise carry megabytes of hex
+            let s = c.stream();
+            let mut want: Vec<Vec<u8>> = vec![];
+            let mut from = 0;
+            while let Some(i) = find(&s[from..], MARKER) {
+                want.push(s[from..from + i + MARKER.len()].to_vec());
+                from += i + MARKER.len();
+            }
+            let verdict = if o.msgs == want && o.end == "pending" {
+                "ok".to_string()
+            } else if o.msgs.len() < want.len() && o.msgs[..] == want[..o.msgs.len()] {
+                format!("violation undelivered-message-{}-of-{}", o.msgs.len(), want.len())
+            } else {
+                format!("violation wrong-split-end-{}", o.end)
+            };
+            sink.direct(&d, verdict);
+            sink.count(&format!("transport.{}", c.transport));
+            sink.count("very-large-message");
+            continue;
+        }
         let state = match c.end {
             End::Quiet => "open",
             End::Eof | End::EofHold => "closed",
